@@ -36,6 +36,10 @@ def build(repo, tier, seed):
     b["syntactic"] += frame_state.obligations(repo)
     b["assumptions"].append("no hidden state: outside constructors and the declared mutators (Overloaded.register/__setstate__, Dataset.set_dispatch/set_cache/enable_effects/disable_effects, "
                             "MemoryCache.set) no method of a class reaching the labrea ABCs stores into its receiver, its class or a module global (AST frame, group <Class>:frame)")
+    from . import overload_c07
+    o_syn, o_und = overload_c07.overload_decorator(repo)
+    b["syntactic"] += o_syn
+    b["undecided"] += o_und
     return b
 
 
